@@ -208,6 +208,12 @@ def run_cli(argv, capture_stdout=True, stale=True, tty_stderr=None):
     lh = _ListHandler()
     root.addHandler(lh)
     old_out, old_err = sys.stdout, sys.stderr
+    # the caller's standard input holds data that is none of the command's business (a shell loop
+    # `while read f; do gaftools ...; done < list`): plausible GFA / GAF lines, must never show up anywhere
+    old_in = sys.stdin
+    sys.stdin = io.StringIO("S\tstdin_ghost\tACGT\tLN:i:4\tSN:Z:chrGhost\tSO:i:0\tSR:i:0\n"
+                            "L\tstdin_ghost\t+\tstdin_ghost\t+\t0M\n"
+                            "stdin_ghost_read\t5\t0\t5\t+\t>stdin_ghost\t4\t0\t4\t4\t4\t60\n")
     out = _Capture()
     err = io.StringIO()
     if tty_stderr is None:
@@ -250,6 +256,7 @@ def run_cli(argv, capture_stdout=True, stale=True, tty_stderr=None):
                           _where(e.__traceback__), tb=tbs[-1500:])
     finally:
         sys.stdout, sys.stderr = old_out, old_err
+        sys.stdin = old_in
         if old_cwd is not None:
             os.chdir(old_cwd)
         tempfile.tempdir = old_tmp
